@@ -1042,12 +1042,67 @@ def setup(ctx):
             os.remove(f)
 
 
+def reuse_case(ctx, g, rng):
+    """call history: the caller's OWN `pars` dictionary is handed to two constructions (a script building the priors of
+    several configurations from one dictionary of nonlinear / linear priors).  The second construction is decided on what
+    the caller put into the dictionary plus the offsets passed to THAT call - exactly as if the dictionary were fresh."""
+    import pymc as pm
+    import thejoker as tj
+    rel = "JokerPrior(pars=<caller's dict>) a second time=PriorV.validate of what that call was given"
+    p, q = int(rng.choice([1, 2])), int(rng.choice([1, 2]))
+    spec = base_spec(rng, p, q)
+    spec["form"] = "dict"
+    for e in spec["pars"]:
+        if e["name"] == "K":
+            e["dk"] = "normal"
+    resolve_fcm(spec["pars"] + spec["offsets"])
+    models = [pm.Model(), pm.Model()]
+    allv = build_vars(spec["pars"] + spec["offsets"], models)
+    user = {e["name"]: v for e, v in zip(spec["pars"], allv)}
+    declared = sorted(user)
+    offs = allv[len(spec["pars"]):]
+    try:
+        tj.JokerPrior(pars=user, v0_offsets=offs, poly_trend=p, model=models[0])
+        first = "ok"
+    except Exception as e_:  # noqa: BLE001
+        first = f"{type(e_).__name__}: {str(e_)[:120]}"
+    variant = str(rng.choice(["misnamed", "shifted", "same"]))
+    spec2 = copy_spec(spec)
+    if variant == "misnamed":
+        spec2["offsets"] = [dict(spec["offsets"][0], name=f"dv0_{q + 1}")]
+    elif variant == "shifted":
+        spec2["offsets"] = [dict(e, name=f"dv0_{j + 2}") for j, e in enumerate(spec["offsets"])]
+    new_offs = offs if variant == "same" else build_vars(spec2["offsets"], models)
+    try:
+        pr2 = tj.JokerPrior(pars=user, v0_offsets=new_offs, poly_trend=p, model=models[0])
+        impl = ("ok", list(pr2.par_names))
+    except Exception as e_:  # noqa: BLE001
+        impl = ("error", classify(e_), f"{type(e_).__name__}: {str(e_)[:120]}")
+    ok, why = wellformed_oracle(spec2)
+    m = ctx.model(model_op(spec2))
+    ctx.evaluated(rel, (g["index"], variant), sample=dict(first_call=first, second_call_offsets=[e["name"] for e in spec2["offsets"]], impl=impl[:2]))
+    ctx.count("prior:dict-reuse:" + variant)
+    inp = dict(first_call=dict(spec=spec, result=first), second_call=dict(spec=spec2), caller_dict_keys_before=declared,
+               caller_dict_keys_after_first_call=sorted(user))
+    tags = dict(entry="JokerPrior", mutation="dict-reuse:" + variant)
+    if first != "ok":
+        ctx.violation(rel, g, inp, first, "ok", "the first (admissible) construction must succeed", tags=tags)
+    elif impl[0] == "ok" and not ok:
+        ctx.violation(rel, g, inp, impl, m, "the second construction from the caller's dictionary must raise because " + why
+                      + " (what an earlier construction was given must not count)", tags=tags)
+    elif impl[0] == "error" and ok:
+        ctx.violation(rel, g, inp, impl, m, "the second construction is admissible and must succeed as the first did", tags=tags)
+    elif not agree(m, impl):
+        ctx.mismatch(rel, g, inp, impl, m, "accept/reject and exception class must agree with the model", tags=tags)
+
+
 def plan(ctx):
     cases = [("grid", i) for i in range(20 if ctx.thorough else 4)]
     cases += [("random", i) for i in range(4000 if ctx.thorough else 150)]
     cases += [("default", i) for i in range(12 if ctx.thorough else 2)]
     cases += [("data", i) for i in range(4000 if ctx.thorough else 220)]
     cases += [("init", 0)]
+    cases += [("reuse", i) for i in range(60 if ctx.thorough else 9)]
     return cases
 
 
@@ -1065,6 +1120,8 @@ def run_case(ctx, g):
         data_case(ctx, g, rng)
     elif kind == "init":
         init_case(ctx, g, rng)
+    elif kind == "reuse":
+        reuse_case(ctx, g, rng)
 
 
 def post(ctx):
@@ -1078,6 +1135,8 @@ def post(ctx):
                    ("offset-name", 5), ("poly-shift", 6), ("poly-value", 10), ("multi", 50), ("shadow-bad", 1), ("dup-bad-last", 2),
                    ("dup-bad-first", 2), ("misnamed", 10)):
         ctx.require(f"prior mutation '{tag}'", c[f"prior:{tag}"], n)
+    ctx.require("second construction from the caller's own dict with mis-named / shifted offsets",
+                c["prior:dict-reuse:misnamed"] + c["prior:dict-reuse:shifted"], 3)
     ctx.require("admissible priors", c["prior:admissible"], 100)
     ctx.require("inadmissible priors", c["prior:inadmissible"], 300)
     ctx.require("default(): admissible", c["default:admissible"], 40)
